@@ -482,6 +482,14 @@ def run_mode(which, mode, text, d, timeout=20):
         cmd = base
     else:
         raise ValueError(mode)
+    for attempt in range(3):       # a run that times out is repeated (loaded machine); three timeouts are reported
+        r = _run_once(cmd, d, e, inp, mode, path, timeout)
+        if r["rc"] != -9:
+            break
+    return r
+
+
+def _run_once(cmd, d, e, inp, mode, path, timeout):
     try:
         if mode == "stdin_file":
             with open(path, "rb") as f:
@@ -772,7 +780,9 @@ def check_cache_inproc(ctx, nhist, hlen):
     # value ids per component
     ids = {}
     def vid(comp, v):
-        return ids.setdefault((comp, v), len(ids) + 1)
+        # `Err(_)` results are not stored by the caches: ids >= 1000000 (the driver's `keep`)
+        is_err = "err:" in str(v)
+        return ids.setdefault((comp, v), len(ids) + 1 + (1000000 if is_err else 0))
     # histories: the exhaustive part parses every text under every ordered pair of option sets; then seeded random
     hists = []
     for ti in range(len(CACHE_TEXTS)):
